@@ -12,6 +12,7 @@ import (
 	"github.com/metrico/qryn/reader/utils/dbVersion"
 	"github.com/metrico/qryn/reader/utils/tables"
 	"io"
+	"runtime/debug"
 	"sort"
 	"strconv"
 	"strings"
@@ -546,6 +547,13 @@ func (q *QueryRangeService) Tail(ctx context.Context, query string) (model.IWatc
 	_ctx, cancel := context.WithCancel(ctx)
 
 	go func() {
+		// nothing recovers a panic on this goroutine for us: a query the planner chokes on must end the tail,
+		// not the process
+		defer func() {
+			if err := recover(); err != nil {
+				logger.Error("panic in tail: ", err, " stack:", string(debug.Stack()))
+			}
+		}()
 		ticker := time.NewTicker(time.Second)
 		defer cancel()
 		defer close(res.GetRes())
